@@ -20,7 +20,8 @@ class Case:
         self.md_error = None
 
 
-def make_case(seed, work, cfg_filter=None, extra_cflags=(), max_tries=40, yaml_text=None, dname=None, profile='rt'):
+def make_case(seed, work, cfg_filter=None, extra_cflags=(), max_tries=40, yaml_text=None, dname=None, profile='rt',
+              dst_pred=None, darr_len=None, nrec=10):
     """generates (or takes) a configuration, loads it with the real front end, builds its runner"""
     rnd = random.Random(seed)
     rejected = 0
@@ -39,11 +40,12 @@ def make_case(seed, work, cfg_filter=None, extra_cflags=(), max_tries=40, yaml_t
             if yaml_text:
                 break
             continue
-        dn = dname or rnd.choice(ir['dsts'])['name']
+        pool = [x for x in ir['dsts'] if dst_pred is None or dst_pred(x)] or ir['dsts']
+        dn = dname or rnd.choice(pool)['name']
         exe, files = hrt.build_runner(cfg, ir, dn, os.path.join(work, f'c{seed}'), extra_cflags=extra_cflags)
         if exe is None:
             return ('compile-failed', text, files, rejected)
-        openargs, recs = hrt.gen_pool(rnd, ir, dn)
+        openargs, recs = hrt.gen_pool(rnd, ir, dn, nrec=nrec, darr_len=darr_len)
         hdr, sizes = hrt.probe(exe, ir, dn, openargs, recs)
         cs = Case(seed, text, cfg, ir, dn, exe, openargs, recs, hdr, sizes)
         cs.files = files
@@ -79,13 +81,13 @@ def kv(line):
 
 
 def run_rt(c, oracle, nconfigs, nhist, gen_hist=None, cfg_filter=None, hist_kwargs=None,
-           known_classifier=None, extra_cflags=(), label='H-runtime', profile='rt', seed_base=0):
+           known_classifier=None, extra_cflags=(), label='H-runtime', profile='rt', seed_base=0, dst_pred=None):
     """oracle(case, hist, impl_lines) -> list of failure strings (empty = property held on this run).
     known_classifier(case, hist, impl_lines, failures) -> known-finding entry or None."""
     work = common.scratch()
     seeds = [c.seed * 1000 + seed_base + i for i in range(nconfigs)]
     with ThreadPoolExecutor(max_workers=min(common.NPROC, 12)) as ex:
-        made = list(ex.map(lambda s: make_case(s, work, cfg_filter, extra_cflags, profile=profile), seeds))
+        made = list(ex.map(lambda s: make_case(s, work, cfg_filter, extra_cflags, profile=profile, dst_pred=dst_pred), seeds))
     cases, rejected, compile_failed = [], 0, []
     for m in made:
         if isinstance(m[0], Case):
@@ -144,7 +146,72 @@ def run_rt(c, oracle, nconfigs, nhist, gen_hist=None, cfg_filter=None, hist_kwar
     return cases, disagreements, stats
 
 
-def decide(c, ob, disagreements, hunt=None):
+def search_impl(c, oracle, seconds=None, nhist=40, profiles=('rt', 'layout-pad', 'rt-bits', 'layout', 'rt-pad', 'layout-bits'), cfg_filter=None,
+                dst_pred=None, known_classifier=None, texts=(), gen_hist=None, hist_kwargs=None, extra_cflags=()):
+    """DESIGN §4 step 4, search on the implementation alone: a proof obligation or a correspondence stopped
+    checking and the regular exploration found no input on which the property fails.  Before that is reported as
+    `no-failing-input-found`, the implementation is run (no model) on `texts` (configurations on which the
+    correspondence broke) and then on fresh generated configurations of several profiles, under the property's
+    oracle, until one fails or the time budget is spent.  Returns True iff a violation with its input was reported."""
+    import time
+    seconds = seconds or (100 if c.tier == 'quick' else 400)
+    t0 = time.time()
+    work = common.scratch()
+    gen_hist = gen_hist or flushing(hrt.gen_history)
+    hist_kwargs = hist_kwargs or {}
+    st = {'configs': 0, 'histories': 0, 'seconds': 0}
+    c.coverage.setdefault('failing_input_search', st)
+    batch, found = 0, False
+    pending = list(texts)[:12]
+    while time.time() - t0 < seconds and not found:
+        if pending:
+            # configurations on which a correspondence broke: more records, empty arrays favoured, every data
+            # stream type, more histories
+            jobs = [dict(seed=880000 + i, yaml_text=t, nrec=24, darr_len=lambda r: r.choice([0, 0, 0, 1, 2, 3]))
+                    for i, t in enumerate(pending)]
+            pending = []
+            this_nhist = max(nhist, 150)
+        else:
+            jobs = [dict(seed=c.seed * 1000 + 500000 + batch * 12 + i, profile=profiles[(batch * 12 + i) % len(profiles)],
+                         cfg_filter=cfg_filter, dst_pred=dst_pred) for i in range(12)]
+            batch += 1
+            this_nhist = nhist
+
+        def mk(j):
+            try:
+                return make_case(j.pop('seed'), work, extra_cflags=extra_cflags, **j)
+            except Exception:
+                return (None, 0)
+        with ThreadPoolExecutor(max_workers=min(common.NPROC, 12)) as ex:
+            made = list(ex.map(mk, jobs))
+        for m in made:
+            cs = m[0]
+            if not isinstance(cs, Case):
+                continue
+            st['configs'] += 1
+            rnd = random.Random(cs.seed * 13 + 5)
+            hists = [gen_hist(rnd, cs.ir, cs.dname, cs.openargs, cs.recs, cs.hdr, cs.sizes, **hist_kwargs)
+                     for _ in range(this_nhist)]
+            for h, a in zip(hists, hrt.run_impl(cs.exe, cs.ir, cs.dname, hists)):
+                st['histories'] += 1
+                fails = oracle(cs, h, a)
+                if not fails:
+                    continue
+                if known_classifier and known_classifier(cs, h, a, fails) is not None:
+                    continue
+                c.violation({'property': c.id, 'kind': 'property fails on the implementation (found by the search that '
+                             'follows a broken proof obligation / correspondence)',
+                             'failures': fails[:5], 'config_yaml': cs.text, 'dst': cs.dname, 'history': h,
+                             'impl_log': a[:400], 'replay_cmd': f'./check {c.id} --replay <this file>'})
+                found = True
+                break
+            if found:
+                break
+    st['seconds'] = round(time.time() - t0, 1)
+    return found
+
+
+def decide(c, ob, disagreements, hunt=None, oracle=None, **search_kw):
     """DESIGN §4 step 4 for the cases where model and code (or proof) stopped agreeing while the
     property oracle stayed quiet on everything explored."""
     if c.violations:
@@ -155,12 +222,21 @@ def decide(c, ob, disagreements, hunt=None):
         found = hunt(cs) if hunt else None
         if found:
             return
+        if oracle is not None:
+            texts = []
+            for d in unexplained:
+                if d[0].text not in texts:
+                    texts.append(d[0].text)
+            if search_impl(c, oracle, texts=texts, **search_kw):
+                return
         c.violation({'property': c.id, 'kind': 'correspondence broken: the Lean runtime model no longer reproduces the '
                      'implementation, and no history on which the property fails on the implementation was found',
                      'obligation': 'H-runtime event stream (implementation vs Lean Model/Rt)',
                      'config_yaml': cs.text, 'dst': cs.dname, 'history': h, 'first_diff_index': first,
                      'impl_line': a, 'model_line': b}, found_input=False)
     elif not ob['ok']:
+        if oracle is not None and search_impl(c, oracle, **search_kw):
+            return
         c.violation({'property': c.id, 'kind': 'proof obligation no longer checks', 'failures': ob['failures'],
                      'log': ob['log'][-1500:]}, found_input=False)
 
